@@ -33,6 +33,9 @@ def overlap(chk, tier):
     chk.rules.append('overlap histories: bursts of writes with the background thread held inside ldb_versions_apply (6 ms per MANIFEST fsync), so that log switches '
                      'happen while a flush/compaction result is being installed; journal judged by Disk.Mon (O3: no needed log/table/MANIFEST unlinked) and kill images recovered')
     wl_run.run_histories(chk, n, nops, TAGS | {'crashkill', 'crashopen'}, 'overlap-histories', family=fam)
+    # garbage collection after a failed flush / compaction install must not remove what the MANIFEST on disk may name
+    import crashcheck
+    crashcheck.window_faults(chk, tier, ['flush', 'compact'], tags={'faultreopen', 'crashopen', 'crashkill'}, label='gc-after-failure')
 
 
 def run(tier):
